@@ -43,13 +43,13 @@ package label
 // slash that precedes every further element.
 //@ func label.Clean
 //@   modifies heap
-//@   loop 0: invariant bounds: n == len(pkg) && 0 <= r && r <= n && out.s == pkg && 0 <= out.w && out.w <= r
-//@   loop 0: invariant shape: out.buf != nil ==> len(out.buf) == n
-//@   loop 0: invariant rooted-prefix: rooted ==> (n >= 2 && out.w >= 2)
-//@   loop 0: invariant caught-up: (out.w == r && out.w != ite(rooted, 2, 0)) ==> (r == n || pkg[r] == 47 || pkg[r] == 58)
-//@   loop 1: invariant bounds: n == len(pkg) && 0 <= r && r <= n && out.s == pkg && 0 <= out.w && out.w <= r
-//@   loop 1: invariant shape: out.buf != nil ==> len(out.buf) == n
-//@   loop 1: invariant rooted-prefix: rooted ==> (n >= 2 && out.w >= 2)
+//@   loop over for#1: invariant bounds: n == len(pkg) && 0 <= r && r <= n && out.s == pkg && 0 <= out.w && out.w <= r
+//@   loop over for#1: invariant shape: out.buf != nil ==> len(out.buf) == n
+//@   loop over for#1: invariant rooted-prefix: rooted ==> (n >= 2 && out.w >= 2)
+//@   loop over for#1: invariant caught-up: (out.w == r && out.w != ite(rooted, 2, 0)) ==> (r == n || pkg[r] == 47 || pkg[r] == 58)
+//@   loop over for#2: invariant bounds: n == len(pkg) && 0 <= r && r <= n && out.s == pkg && 0 <= out.w && out.w <= r
+//@   loop over for#2: invariant shape: out.buf != nil ==> len(out.buf) == n
+//@   loop over for#2: invariant rooted-prefix: rooted ==> (n >= 2 && out.w >= 2)
 
 //@ func label.Parse
 //@   ensures label-or-error: result.1 == nil ==> result.0 != nil
@@ -61,11 +61,11 @@ package label
 //@ func label.Parent
 //@ func label.Dir
 //@ func label.Split
-//@   loop 0: invariant 0 <= i && i <= len(pkg)
-//@   loop 1: invariant 0 <= start && start <= i && i <= len(pkg)
+//@   loop over for#1: invariant 0 <= i && i <= len(pkg)
+//@   loop over for#2: invariant 0 <= start && start <= i && i <= len(pkg)
 //@ func label.Join
-//@   loop 0: invariant size >= 0
-//@   loop 1: invariant true
+//@   loop over elem#1: invariant size >= 0
+//@   loop over elem#2: invariant true
 //@ func (*label.Label).IsAbs
 //@   requires l != nil
 //@ func (*label.Label).RelativeTo
